@@ -222,7 +222,8 @@ class Group:
         Timeout defaults to None meaning open-ended waiting and no kill
         attempts.
         """
-        while self:
+        # members that were exit()ed before are still to be joined or killed
+        while self or self._gateways_to_join:
             vias: set[str] = set()
             for gw in self:
                 if gw.spec.via:
